@@ -1,3 +1,9 @@
 module verif/engine
 
 go 1.23
+
+require (
+	github.com/anishathalye/porcupine v1.3.0
+	golang.org/x/tools v0.31.0
+	gopkg.in/yaml.v3 v3.0.1
+)
